@@ -259,7 +259,7 @@ theorem hs_eq (a : Agent) (now : Nat) (m : Msg) (l r : Cand) (src : Nat) :
         | some p =>
           ((hsBlock ((a.takePending now m.tid).1.modPair p.id fun q =>
                 { q with state := .succeeded, gResp := true, gRespUC := q.gRespUC || pd.useCand }) p pd).1.modPair p.id
-              fun p => { p with respRecv := p.respRecv + 1 },
+              (Pair.gotResponse now pd.ts),
            (hsBlock ((a.takePending now m.tid).1.modPair p.id fun q =>
                 { q with state := .succeeded, gResp := true, gRespUC := q.gRespUC || pd.useCand }) p pd).2) := by
   unfold Agent.handleSuccess
